@@ -31,13 +31,39 @@ def arg_structs():
         st.lists(ch, min_size=0, max_size=3).map(lambda l: ["list", l]),
         st.lists(ch, min_size=1, max_size=3).map(lambda l: ["tuple", l]),
         st.lists(ch, min_size=0, max_size=3).map(lambda l: ["dict", l]),
+        # subclasses of the three container types (namedtuple, OrderedDict, a user list class) are containers too
+        st.lists(ch, min_size=1, max_size=3).map(lambda l: ["ntuple", l]),
+        st.lists(ch, min_size=0, max_size=3).map(lambda l: ["odict", l]),
+        st.lists(ch, min_size=0, max_size=3).map(lambda l: ["dlist", l]),
         # the same child OBJECT several times in one list ([row] * n): every occurrence is an argument position
         st.tuples(ch, st.integers(2, 3)).map(lambda t: ["rep", t[0], t[1]]),
     ), max_leaves=6)
 
 
+class UserList(list):
+    pass
+
+
+def make_container(t, items):
+    if t == "list":
+        return list(items)
+    if t == "tuple":
+        return tuple(items)
+    if t == "ntuple":
+        import collections
+        return collections.namedtuple("NT%d" % len(items), ["f%d" % i for i in range(len(items))])(*items)
+    if t == "dlist":
+        return UserList(items)
+    if t == "odict":
+        import collections
+        return collections.OrderedDict(("k%d" % i, x) for i, x in enumerate(items))
+    raise ValueError(t)
+
+
 def build_arg(s):
     t = s[0]
+    if t in ("ntuple", "odict", "dlist"):
+        return make_container(t, [build_arg(x) for x in s[1]])
     if t == "int":
         return s[1]
     if t == "float":
@@ -78,9 +104,9 @@ def numeric_leaves(s, path=()):
     t = s[0]
     if t in ("int", "float", "bool"):
         yield path, t, s[1]
-    elif t in ("list", "tuple", "dict"):
+    elif t in ("list", "tuple", "dict", "ntuple", "odict", "dlist"):
         for i, x in enumerate(s[1]):
-            yield from numeric_leaves(x, path + (("k%d" % i) if t == "dict" else i,))
+            yield from numeric_leaves(x, path + (("k%d" % i) if t in ("dict", "odict") else i,))
     elif t == "rep":
         for i in range(s[2]):
             yield from numeric_leaves(s[1], path + (i,))
@@ -139,7 +165,7 @@ def draw_result(draw, leaves, depth=0):
         return ["rep", draw_result(draw, leaves, depth + 1), draw(st.integers(2, 3))]      # one result object at several positions
     n = draw(st.integers(1, 3))
     items = [draw_result(draw, leaves, depth + 1) for _ in range(n)]
-    return [draw(st.sampled_from(["list", "tuple", "dict"])), items]
+    return [draw(st.sampled_from(["list", "tuple", "dict", "list", "tuple", "dict", "ntuple", "odict", "dlist"])), items]
 
 
 def eval_expr(e, args):
@@ -176,6 +202,11 @@ def eval_result(r, args):
         return tuple(eval_result(x, args) for x in r[1])
     if t == "rep":
         return [eval_result(r[1], args)] * r[2]
+    if t in ("ntuple", "dlist"):
+        return make_container(t, [eval_result(x, args) for x in r[1]])
+    if t == "odict":
+        import collections
+        return collections.OrderedDict(("r%d" % i, eval_result(x, args)) for i, x in enumerate(r[1]))
     return {"r%d" % i: eval_result(x, args) for i, x in enumerate(r[1])}
 
 
@@ -190,9 +221,14 @@ def flatten(x):
         yield x
 
 
+def family(x):
+    return list if isinstance(x, list) else tuple if isinstance(x, tuple) else dict if isinstance(x, dict) else None
+
+
 def plain_equal(a, b):
-    if type(a) in (list, tuple, dict) or type(b) in (list, tuple, dict):
-        if type(a) is not type(b) or len(a) != len(b):
+    if family(a) or family(b):
+        # subclass instances come back as plain containers of the same family (documented: lists and tuples are traversed)
+        if family(a) is not family(b) or len(a) != len(b):
             return False
         if isinstance(a, dict):
             return list(a) == list(b) and all(plain_equal(a[k], b[k]) for k in a)
@@ -296,7 +332,7 @@ def shard(seed, n_examples):
             args = draw(st.lists(arg_structs(), min_size=0, max_size=3))
             if args and draw(st.integers(0, 3)) == 0:
                 j = draw(st.integers(0, len(args) - 1))
-                if args[j][0] in ("list", "tuple", "dict", "rep"):
+                if args[j][0] in ("list", "tuple", "dict", "rep", "ntuple", "odict", "dlist"):
                     args.insert(draw(st.integers(j + 1, len(args))), ["same", j])          # f(v, v)
             leaves = list(numeric_leaves(["tuple", resolve_same(args)]))
             calls.append({"args": args, "result": draw_result(draw, leaves), "kwargs": draw(st.integers(0, 9)) == 0})
@@ -310,6 +346,8 @@ def shard(seed, n_examples):
             labels.append("kwargs")
         if any('"rep"' in json.dumps(c) or '"same"' in json.dumps(c) for c in calls):
             labels.append("aliased-containers")
+        if any(('"%s"' % k) in json.dumps(c) for c in calls for k in ("ntuple", "odict", "dlist")):
+            labels.append("container-subclasses")
         stats.case(case if nt else None, nt, labels)
         if msg:
             raise core.Violation(case, msg, "snark")
